@@ -16,6 +16,7 @@ from vf import fits as FT
 from vf.gen import rng_for
 
 ID = "C07"
+TECHNIQUE = 'runtime monitoring: post-condition on every frame returned by the real daily/billing predict() (row-wise both-or-neither mask, column sums vs row-wise savings, aggregates vs daily rows) over defect patterns and model-reuse histories'
 LEVEL = "exploration"
 CASE_TIMEOUT = 1500
 RULE = ("daily and billing models (parameter-built for every split layout and shape; a few fitted) x reporting sets with every pattern of "
